@@ -300,8 +300,9 @@ def apply_contract(it, c, f, args, kwargs, node):
         clsname, cond = outcomes[k]
         cls = exc_class(clsname)
         exc = fresh_exc(it, cls, env)
-        if cond is not None:
-            it.ctx.assume(eval_clause(it, cond, dict(env, exc=exc), f))
+        for cnd in (cond if isinstance(cond, (list, tuple)) else [cond]):
+            if cnd is not None:
+                it.ctx.assume(eval_clause(it, cnd, dict(env, exc=exc), f))
         raise PyRaise(exc)
     finally:
         it.old_env = saved_old
